@@ -36,7 +36,7 @@ def battery(seed, n):
 
     rng = random.Random("battery/%d" % seed)
     items = []
-    kinds = ["tree", "doc", "doc", "textdoc", "headc", "jsx", "css", "classes", "attrs", "typed_attrs", "jsonmode", "retry", "shared", "longtwin", "dyninst", "bigrepr", "headc_list", "headc_big", "doccopy", "root_reuse"]
+    kinds = ["tree", "doc", "doc", "textdoc", "headc", "jsx", "css", "classes", "attrs", "typed_attrs", "jsonmode", "retry", "shared", "longtwin", "dyninst", "bigrepr", "headc_list", "headc_big", "doccopy", "root_reuse", "saved_then_rendered"]
     for i in range(n):
         k = kinds[i % len(kinds)]
         if k == "tree":
@@ -92,6 +92,8 @@ def battery(seed, n):
             items.append((k, {"size": rng.choice([65536, 65537, 70000, 131072 + 5, 200001]), "where": rng.choice(["end", "end", "middle", "start"]), "n": i}))
         elif k == "doccopy":
             items.append((k, {"n": i, "append_to": rng.choice(["copy", "original"]), "attrs": rng.random() < 0.5}))
+        elif k == "saved_then_rendered":
+            items.append((k, {"n": i % 5, "libdir": rng.choice(["assets", "assets", None, "a/b"]), "iv": rng.random() < 0.5}))
         elif k == "root_reuse":
             items.append((k, {"n": i, "root_attrs": rng.random() < 0.4, "root": rng.choice(["html", "html", "body"])}))
         elif k == "longtwin":
@@ -292,10 +294,43 @@ def _run_item(kind, r):
         old = _h.html_dependency_render_mode
         _h.html_dependency_render_mode = "json"
         try:
-            out = str(gen.build(r))
+            # (a conversion that fails - and whose error the caller handles - comes first: it leaves nothing behind)
+            class _NotExpanded:
+                def tagify(self):
+                    return self
+
+            for bad in (ht.div("x", ht.HTMLDependency("lost", "1.0"), _NotExpanded()), ht.TagList(ht.span(_NotExpanded()))):
+                try:
+                    str(bad)
+                except Exception:
+                    pass
+            t = gen.build(r)
+            out = str(t)
+            still_json = _h.html_dependency_render_mode == "json"
         finally:
             _h.html_dependency_render_mode = old
-        return {"html": _d(out)}
+        n_ser = out.count('<script type="application/json" data-html-dependency="">')
+        return {"html": _d(out), "same_when_rendered_again": still_json and n_ser == len(t.get_dependencies())}
+    if kind == "saved_then_rendered":
+        import shutil
+        import tempfile
+
+        d_ = tempfile.mkdtemp(prefix="hv-c18-")
+        try:
+            src = os.path.join(d_, "src")
+            os.makedirs(src)
+            with open(os.path.join(src, "f.js"), "w") as fh:
+                fh.write("/* f */")
+            mk = lambda: ht.HTMLDocument(ht.div("doc %d" % r["n"], ht.HTMLDependency("filedep", "1.%d" % r["n"], source={"subdir": src}, script={"src": "f.js"}),   # noqa: E731
+                                                ht.HTMLDependency("urldep", "2.0", source={"href": "https://cdn.example/u"}, stylesheet={"href": "u.css"})))
+            doc, fresh = mk(), mk()
+            doc.save_html(os.path.join(d_, "out", "index.html") if False else os.path.join(d_, "index.html"), libdir=r["libdir"], include_version=r["iv"])
+            after = doc.render()
+            ok = after["html"] == fresh.render()["html"] and doc.render(lib_prefix="lib")["html"] == after["html"]
+            ok = ok and doc.render(lib_prefix=None, include_version=False)["html"] == fresh.render(lib_prefix=None, include_version=False)["html"]
+            return {"html": _d(after["html"].replace(src, "SRC")), "same_when_rendered_again": ok}
+        finally:
+            shutil.rmtree(d_, ignore_errors=True)
     if kind == "typed_attrs":
         t = ht.Tag("input", **{n: gen.build_attr_value(v) for n, v in r})
         css_ = ht.css(**{n: gen.build_attr_value(v) for n, v in r if v["t"] in ("num", "str")})
